@@ -162,8 +162,38 @@ class Hang(BaseException):
     pass
 
 
+def _family_cpu():
+    """(cpu ticks used by this process and its children, some process is runnable) from /proc"""
+    me = os.getpid()
+    ticks, running = 0, False
+    for name in os.listdir('/proc'):
+        if not name.isdigit():
+            continue
+        try:
+            with open('/proc/{}/stat'.format(name)) as f:
+                fields = f.read().rsplit(') ', 1)[1].split()
+        except OSError:
+            continue
+        if int(name) == me or int(fields[1]) == me:
+            ticks += int(fields[11]) + int(fields[12])
+            if int(name) != me and fields[0] == 'R':
+                running = True
+    return ticks, running
+
+
+_watch = dict(ticks=0, strikes=0, t0=0.0, limit=600.0)
+
+
 def _alarm(signum, frame):
-    raise Hang()
+    # a deadlock is: nobody computes.  A slow machine is not a deadlock.
+    ticks, running = _family_cpu()
+    if running or ticks - _watch['ticks'] > 3:
+        _watch['strikes'] = 0
+    else:
+        _watch['strikes'] += 1
+    _watch['ticks'] = ticks
+    if _watch['strikes'] >= 2 or time.time() - _watch['t0'] > _watch['limit']:
+        raise Hang()
 
 
 def _same(a, b, exact):
@@ -241,7 +271,8 @@ def run_scenario(sc, Probe):
     PLAN.update(sleep=sc.get('sleep', []), fault=sc.get('fault'))
     _emit('scenario', sid=sc['id'])
     old = signal.signal(signal.SIGALRM, _alarm)
-    signal.setitimer(signal.ITIMER_REAL, sc.get('timeout', 30))
+    _watch.update(ticks=_family_cpu()[0], strikes=0, t0=time.time())
+    signal.setitimer(signal.ITIMER_REAL, sc.get('timeout', 10), sc.get('timeout', 10))
     val = None
     try:
         with parallel.maxprocs(sc['np']), treelog.set(treelog.NullLog()):
